@@ -45,6 +45,13 @@ class NumpyShim:
     def __getattr__(self, name):
         return getattr(_np, name)
 
+    def atleast_1d(self, a):
+        """symbolic arrays and contract stand-ins already have their dimensionality: passed through unchanged"""
+        return a if _sym(a) else _np.atleast_1d(a)
+
+    def atleast_2d(self, a):
+        return a if _sym(a) else _np.atleast_2d(a)
+
     def _kind(self, dtype, default=None):
         if dtype is None:
             return default
